@@ -109,6 +109,9 @@ func runSolver(s solverSpec, file string, timeoutS, seed int) (string, string, f
 }
 
 // discharge runs the portfolio on one obligation.
+// quickFail lists stable obligation names recorded as known findings: they get the first solver stage only.
+var quickFail = map[string]bool{}
+
 func discharge(o *Oblig, dir string, idx int, tier string, seed int) {
 	base := filepath.Join(dir, fmt.Sprintf("%04d_%s", idx, sanitize(o.Fn+"_"+o.Name)))
 	if len(base) > 200 {
@@ -156,10 +159,14 @@ func discharge(o *Oblig, dir string, idx int, tier string, seed int) {
 		// confirm with a model
 		return
 	}
+	if quickFail[stableName(o)] && tier != "thorough" {
+		return
+	}
 	// unknown / timeout: E-matching was not enough; try z3 with model-based quantifier instantiation
 	mfile := base + ".mbqi.smt2"
 	os.WriteFile(mfile, []byte(o.renderV(false, true)), 0o644)
-	rm, outm, dtm := runSolver(solvers[0], mfile, timeout, seed)
+	mt := timeout * 3
+	rm, outm, dtm := runSolver(solvers[0], mfile, mt, seed)
 	o.TimeS += dtm
 	if rm == "unsat" {
 		o.Result, o.Solver, o.RawOut = rm, solvers[0].name+"(mbqi)", outm
